@@ -3,6 +3,16 @@ C07 — Geo-addressed packets are delivered exactly inside the destination area.
 Property theorems only.  Model: `FlexModel/Geo/Area.lean` (mirrors router.py with fix C07-F1 applied: the point is
 rotated into the area frame before F); helper lemmas: `FlexModel/Geo/AreaLemmas.lean`.
 All statements are for arbitrary rational semi-axes a, b > 0 and arbitrary rational points — no bounds.
+
+Sections: (1) F on frame coordinates; (2) the azimuth rotation, for an abstract rational unit vector (c, s) = (cos θ,
+sin θ) and a point given in the LOCAL (north, east) frame of the centre — membership in the rotated shape is
+`insideRotated`, written as "image of the axis-aligned shape under the rotation" independently of the code's
+`toFrame`/`codeFrame`; (3) delivery, on frame values (`RxIn`) and on whole packets for an abstract projection and
+trigonometric table (`Glue`); (4) area size; (5) Annex D incl. the sender/source question (known finding C07-KF1);
+(6) the code before fix C07-F1.
+The float glue (`calculate_distance`, `math.cos/sin(math.radians(angle))`) is tied to `Glue` by the harness only
+(tolerance-banded; the model is evaluated on exact rational unit vectors within 1e-30 rad of the azimuth, which are
+exact for 0/90/180/270 degrees and for Pythagorean angles).
 -/
 import FlexModel.Geo.AreaLemmas
 import Generated.Mib
@@ -68,26 +78,80 @@ theorem degenerate_error (s : Shape) (a b x y : Rat) :
   · intro h; subst h; cases s <;> simp [F, degenerate]
   · intro h hs; subst h; cases s <;> simp_all [F, degenerate]
 
+/-! ## The azimuth rotation (EN 302 931: the long semi-axis `a` points along the azimuth) -/
+
+/-- **F ≥ 0 ⇔ the point lies in the ROTATED shape**, for every azimuth given by a rational unit vector, every shape,
+all semi-axes and every point of the local (north, east) plane.  `FvalCode` is the code's arithmetic
+(`calculate_distance` sign convention, `rotate_to_area_frame`, then F); `insideRotated` is the shape of the standard
+turned by the azimuth. -/
+theorem rotated_inside_iff_F (sh : Shape) (a b c s n e : Rat) (hu : c * c + s * s = 1) (ha : 0 < a) (hb : 0 < b) :
+    0 ≤ FvalCode sh a b c s n e ↔ insideRotated sh a b c s n e := by
+  rw [FvalCode_eq_FvalLocal, insideRotated_iff sh a b c s n e hu]
+  exact F_nonneg_iff_inside sh a b _ _ ha hb
+
+/-- F = 0 exactly on the border of the rotated shape -/
+theorem rotated_border_iff_F (sh : Shape) (a b c s n e : Rat) (hu : c * c + s * s = 1) (ha : 0 < a) (hb : 0 < b) :
+    FvalCode sh a b c s n e = 0 ↔ onBorderRotated sh a b c s n e := by
+  rw [FvalCode_eq_FvalLocal, onBorderRotated_iff sh a b c s n e hu]
+  exact F_zero_border sh a b _ _ ha hb
+
+/-- outside the rotated shape ⇔ F < 0 -/
+theorem rotated_outside_iff_F (sh : Shape) (a b c s n e : Rat) (hu : c * c + s * s = 1) (ha : 0 < a) (hb : 0 < b) :
+    FvalCode sh a b c s n e < 0 ↔ ¬ insideRotated sh a b c s n e := by
+  rw [← rotated_inside_iff_F sh a b c s n e hu ha hb, not_le]
+
+/-- non-vacuity, oblique azimuth with rational sine/cosine (≈ 53.13°, the 3-4-5 angle): rectangle 100 m × 10 m; the
+point 60 m north / 80 m east lies on the long axis (inside), the point 80 m north / 60 m east does not -/
+example : insideRotated .rect 100 10 (3/5) (4/5) 60 80 ∧ ¬ insideRotated .rect 100 10 (3/5) (4/5) 80 60 :=
+  ⟨(rotated_inside_iff_F .rect 100 10 (3/5) (4/5) 60 80 (by norm_num) (by norm_num) (by norm_num)).1 (by decide +kernel),
+   (rotated_outside_iff_F .rect 100 10 (3/5) (4/5) 80 60 (by norm_num) (by norm_num) (by norm_num)).1 (by decide +kernel)⟩
+
+/-- the code's frame (x axis pointing south) and the frame of the standard (abscissa along the azimuth) differ by the
+sign of the abscissa only: no decision can depend on it -/
+theorem code_frame_orientation_harmless (sh : Shape) (a b c s n e : Rat) :
+    FvalCode sh a b c s n e = FvalLocal sh a b c s n e := FvalCode_eq_FvalLocal sh a b c s n e
+
+/-- **circle: independent of the azimuth** — any two unit vectors give the same F, and membership is
+`north² + east² ≤ a²` -/
+theorem circle_azimuth_independent (a b c s c' s' n e : Rat) (hu : c * c + s * s = 1) (hu' : c' * c' + s' * s' = 1)
+    (ha : 0 < a) :
+    FvalCode .circle a b c s n e = FvalCode .circle a b c' s' n e ∧
+    (0 ≤ FvalCode .circle a b c s n e ↔ n * n + e * e ≤ a * a) := by
+  rw [FvalCode_eq_FvalLocal, FvalCode_eq_FvalLocal, FvalLocal_circle a b c s n e hu, FvalLocal_circle a b c' s' n e hu']
+  exact ⟨rfl, circle_iff a b n e ha⟩
+
+/-- **azimuth θ and θ + 180° describe the same area** (cos, sin ↦ −cos, −sin), all shapes -/
+theorem azimuth_half_turn (sh : Shape) (a b c s n e : Rat) :
+    FvalCode sh a b (-c) (-s) n e = FvalCode sh a b c s n e := by
+  rw [FvalCode_eq_FvalLocal, FvalCode_eq_FvalLocal]; exact FvalLocal_half_turn sh a b c s n e
+
+/-- the same on the side of the standard: the rotated shapes of azimuth θ and θ + 180° are the same point set -/
+theorem rotated_shape_half_turn (sh : Shape) (a b c s n e : Rat) (hu : c * c + s * s = 1) (ha : 0 < a) (hb : 0 < b) :
+    insideRotated sh a b (-c) (-s) n e ↔ insideRotated sh a b c s n e := by
+  have hu' : (-c) * (-c) + (-s) * (-s) = 1 := by rw [neg_mul_neg, neg_mul_neg]; exact hu
+  rw [← rotated_inside_iff_F sh a b (-c) (-s) n e hu' ha hb, ← rotated_inside_iff_F sh a b c s n e hu ha hb,
+    azimuth_half_turn]
+
+/-- **swapping the semi-axes is the same as turning by 90°** (cos, sin ↦ −sin, cos), rectangle and ellipse -/
+theorem azimuth_quarter_turn_swaps_axes (sh : Shape) (hs : sh ≠ .circle) (a b c s n e : Rat) :
+    FvalCode sh b a (-s) c n e = FvalCode sh a b c s n e := by
+  rw [FvalCode_eq_FvalLocal, FvalCode_eq_FvalLocal]; exact FvalLocal_quarter_turn_swap sh hs a b c s n e
+
+/-- the four azimuths with rational sine and cosine among the integer degrees (0°, 90°, 180°, 270°): the rotation is a
+permutation of the offsets with signs, `quarterCS` is a unit vector, and membership in a rectangle of azimuth 90° reads
+|east| ≤ a ∧ |north| ≤ b -/
+theorem azimuth_quarter_exact (q : Nat) (n e a b : Rat) :
+    toFrameQuarter q n e = toFrame (quarterCS q).1 (quarterCS q).2 n e ∧
+    (quarterCS q).1 * (quarterCS q).1 + (quarterCS q).2 * (quarterCS q).2 = 1 ∧
+    (insideRotated .rect a b 0 1 n e ↔ (-a ≤ e ∧ e ≤ a) ∧ (-b ≤ n ∧ n ≤ b)) := by
+  refine ⟨toFrameQuarter_eq q n e, quarterCS_unit q, ?_⟩
+  rw [insideRotated_iff .rect a b 0 1 n e (by norm_num)]
+  simp only [inside, toFrame, mul_zero, mul_one, zero_add, add_zero]
+  constructor
+  · rintro ⟨⟨h1, h2⟩, h3, h4⟩; exact ⟨⟨h1, h2⟩, by linarith, by linarith⟩
+  · rintro ⟨⟨h1, h2⟩, h3, h4⟩; exact ⟨⟨h1, h2⟩, by linarith, by linarith⟩
+
 /-! ## Delivery decision -/
-
-/-- **GBC**: delivered to the upper layer ⇔ F(ego) ≥ 0 -/
-theorem gbc_deliver_iff (i : RxIn) : Action.deliver ∈ recvGBC i ↔ 0 ≤ i.fEgo := by
-  unfold recvGBC
-  by_cases h : 0 ≤ i.fEgo
-  · simp [h]
-  · simp only [h, if_false, List.nil_append, iff_false]
-    split
-    · simp
-    · split <;> simp
-
-/-- **GAC**: delivered ⇔ F(ego) ≥ 0 -/
-theorem gac_deliver_iff (i : RxIn) : Action.deliver ∈ recvGAC i ↔ 0 ≤ i.fEgo := by
-  unfold recvGAC
-  by_cases h : 0 ≤ i.fEgo
-  · simp [h]
-  · simp only [h, if_false, iff_false]
-    repeat' split
-    all_goals simp
 
 /-- **GAC inside**: delivered and then NOT forwarded -/
 theorem gac_inside_no_forward (i : RxIn) (h : 0 ≤ i.fEgo) : recvGAC i = [Action.deliver] := by
@@ -97,14 +161,14 @@ theorem gac_inside_no_forward (i : RxIn) (h : 0 ≤ i.fEgo) : recvGAC i = [Actio
 theorem outside_never_deliver (i : RxIn) (h : i.fEgo < 0) :
     Action.deliver ∉ recvGBC i ∧ Action.deliver ∉ recvGAC i := by
   have : ¬ 0 ≤ i.fEgo := not_le.2 h
-  exact ⟨fun hd => this ((gbc_deliver_iff i).1 hd), fun hd => this ((gac_deliver_iff i).1 hd)⟩
+  exact ⟨fun hd => this ((recvGBC_deliver_iff i).1 hd), fun hd => this ((recvGAC_deliver_iff i).1 hd)⟩
 
 /-- delivery ⇔ the receiver lies inside or on the border of the destination shape (F evaluated at the ego position
     in the area frame), for both transport types -/
 theorem deliver_iff_inside (s : Shape) (a b x y : Rat) (ha : 0 < a) (hb : 0 < b) (i : RxIn)
     (hf : i.fEgo = Fval s a b x y) :
     (Action.deliver ∈ recvGBC i ↔ inside s a b x y) ∧ (Action.deliver ∈ recvGAC i ↔ inside s a b x y) := by
-  rw [gbc_deliver_iff, gac_deliver_iff, hf]
+  rw [recvGBC_deliver_iff, recvGAC_deliver_iff, hf]
   exact ⟨F_nonneg_iff_inside s a b x y ha hb, F_nonneg_iff_inside s a b x y ha hb⟩
 
 /-- a GBC receiver inside the area with hop budget left re-broadcasts by area forwarding -/
@@ -112,6 +176,57 @@ theorem gbc_inside_forwards (i : RxIn) (h : 0 ≤ i.fEgo) (ho : i.oversize = fal
     (hr : 1 < i.rhl) : recvGBC i = [Action.deliver, Action.forwardArea] := by
   have : ¬ i.rhl ≤ 1 := by omega
   simp [recvGBC, h, ho, hp, this, annexD]
+
+/-! ## Delivery, whole packets: abstract projection `g.proj` and trigonometric table `g.cos`, `g.sin` -/
+
+/-- F at a position decides membership of that position in the packet's (rotated) destination area —
+for every projection and every table of unit vectors; the circle needs only `a > 0` (the DEN service sends `b = 0`) -/
+theorem position_inside_iff_F (g : Glue) (hu : g.UnitCS) (A : GeoArea) (p : Pos) (ha : 0 < A.a)
+    (hb : A.shape = .circle ∨ 0 < A.b) : 0 ≤ fAt g A p ↔ insideArea g A p := by
+  have ha' : (0 : Rat) < (A.a : Rat) := by exact_mod_cast ha
+  unfold fAt insideArea
+  rcases hb with hc | hb
+  · rw [hc, FvalCode_eq_FvalLocal, insideRotated_iff _ _ _ _ _ _ _ (hu A.az)]
+    exact circle_iff _ _ _ _ ha'
+  · exact rotated_inside_iff_F _ _ _ _ _ _ _ (hu A.az) ha' (by exact_mod_cast hb)
+
+/-- **a GBC / GAC packet is delivered to the upper layer exactly when the receiver's position lies inside or on the
+border of the destination area, including its azimuth rotation** — whatever the hop limit, the area-size verdict, the
+PDR verdict, the location table, the sender and the choice of the Annex D key -/
+theorem packet_deliver_iff_inside (g : Glue) (hu : g.UnitCS) (k : SeKey) (st : Station) (pk : GeoPkt) (sender : Nat)
+    (ha : 0 < pk.area.a) (hb : pk.area.shape = .circle ∨ 0 < pk.area.b) :
+    (Action.deliver ∈ recvGBCpkt g k st pk sender ↔ insideArea g pk.area st.ego) ∧
+    (Action.deliver ∈ recvGACpkt g k st pk sender ↔ insideArea g pk.area st.ego) := by
+  unfold recvGBCpkt recvGACpkt
+  rw [recvGBC_deliver_iff, recvGAC_deliver_iff]
+  exact ⟨position_inside_iff_F g hu pk.area st.ego ha hb, position_inside_iff_F g hu pk.area st.ego ha hb⟩
+
+/-- **outside: only forwarded or discarded, never delivered** (whole packet) -/
+theorem packet_outside_never_delivered (g : Glue) (hu : g.UnitCS) (k : SeKey) (st : Station) (pk : GeoPkt)
+    (sender : Nat) (ha : 0 < pk.area.a) (hb : pk.area.shape = .circle ∨ 0 < pk.area.b)
+    (hout : ¬ insideArea g pk.area st.ego) :
+    (∀ x ∈ recvGBCpkt g k st pk sender, x = Action.forwardArea ∨ x = Action.forwardNonArea) ∧
+    (∀ x ∈ recvGACpkt g k st pk sender, x = Action.forwardArea ∨ x = Action.forwardNonArea) := by
+  obtain ⟨h1, h2⟩ := packet_deliver_iff_inside g hu k st pk sender ha hb
+  constructor
+  · intro x hx; cases x with
+    | deliver => exact absurd (h1.1 hx) hout
+    | forwardArea => exact Or.inl rfl
+    | forwardNonArea => exact Or.inr rfl
+  · intro x hx; cases x with
+    | deliver => exact absurd (h2.1 hx) hout
+    | forwardArea => exact Or.inl rfl
+    | forwardNonArea => exact Or.inr rfl
+
+/-- non-vacuity: rectangle 100 m × 10 m of azimuth 90° around (0, 0); a receiver 50 m east is delivered to (GBC: and
+re-broadcasts), a receiver 50 m north is not -/
+example :
+    let A : GeoArea := ⟨.rect, 100, 10, ⟨0, 0⟩, 90⟩
+    let pk : GeoPkt := ⟨A, 5, 7⟩
+    recvGBCpkt flatGlue .source ⟨⟨0, 50⟩, 10, fun _ => false, fun _ => none⟩ pk 7 = [.deliver, .forwardArea] ∧
+    recvGACpkt flatGlue .source ⟨⟨0, 50⟩, 10, fun _ => false, fun _ => none⟩ pk 7 = [.deliver] ∧
+    recvGBCpkt flatGlue .source ⟨⟨50, 0⟩, 10, fun _ => false, fun _ => none⟩ pk 7 = [.forwardNonArea] := by
+  decide +kernel
 
 /-! ## Area size control -/
 
@@ -137,6 +252,15 @@ theorem oversize_not_forwarded (i : RxIn) (h : i.oversize = true) :
   unfold recvGBC recvGAC
   by_cases hf : 0 ≤ i.fEgo <;> simp [h, hf]
 
+/-- a packet whose area exceeds `itsGnMaxGeoAreaSize` of the receiver is never forwarded (whole packet) -/
+theorem packet_oversize_not_forwarded (g : Glue) (k : SeKey) (st : Station) (pk : GeoPkt) (sender : Nat)
+    (h : (st.maxKm2 : Rat) * 1000000 < areaSize pk.area.shape pk.area.a pk.area.b) :
+    (∀ x ∈ recvGBCpkt g k st pk sender, x = Action.deliver) ∧ (∀ x ∈ recvGACpkt g k st pk sender, x = Action.deliver) := by
+  have ho : (rxInOf g k st pk sender).oversize = true := by simp [rxInOf, oversize, h]
+  obtain ⟨h1, h2, h3, h4⟩ := oversize_not_forwarded (rxInOf g k st pk sender) ho
+  unfold recvGBCpkt recvGACpkt
+  constructor <;> intro x hx <;> cases x <;> first | rfl | (exfalso; first | exact h1 hx | exact h2 hx | exact h3 hx | exact h4 hx)
+
 /-- the default MIB limit (regenerated from the source on every run) is 10 km²: a circle of radius 1784 m fits,
     1785 m does not; a 1000 m × 2500 m (half-sides) rectangle fits exactly -/
 theorem default_limit_boundary :
@@ -158,14 +282,6 @@ theorem annexD_no_sender (fEgo : Rat) (any : Bool) :
     annexD fEgo none = annexDTable (decide (0 ≤ fEgo)) false any := by
   by_cases h1 : 0 ≤ fEgo <;> cases any <;> simp [annexD, annexDTable, h1]
 
-/-- the eight rows, spelled out -/
-theorem annexD_rows :
-    annexDTable true true true = .areaForwarding ∧ annexDTable true true false = .areaForwarding ∧
-    annexDTable true false true = .areaForwarding ∧ annexDTable true false false = .areaForwarding ∧
-    annexDTable false true true = .discard ∧ annexDTable false true false = .nonAreaForwarding ∧
-    annexDTable false false true = .nonAreaForwarding ∧ annexDTable false false false = .nonAreaForwarding := by
-  decide
-
 /-- a forwarder outside the area whose sender was inside (valid position) neither forwards nor delivers -/
 theorem outside_sender_inside_discard (i : RxIn) (fSe : Rat) (h : i.fEgo < 0) (hs : i.se = some (true, fSe))
     (hse : 0 ≤ fSe) : recvGBC i = [] ∧ recvGAC i = [] := by
@@ -176,22 +292,126 @@ theorem outside_sender_inside_discard (i : RxIn) (fSe : Rat) (h : i.fEgo < 0) (h
   · simp only [recvGAC, h', if_false, hs, hse, if_true]
     split <;> rfl
 
-/-! ## The code before fix C07-F1 (azimuth ignored) -/
+/-! ### Annex D on whole packets: whose position vector is PV_SE?
 
-/-- witness: rectangle a = 100 m, b = 10 m, azimuth 90° (long side pointing east).  The point 50 m east of the centre
-    is inside, the point 50 m north is outside; the unrotated evaluation decided both the wrong way round. -/
-theorem azimuth_ignored_witness :
-    let pE := toFrameQuarter 1 0 50      -- 50 m east, in the area frame
-    let pN := toFrameQuarter 1 50 0      -- 50 m north, in the area frame
-    inside .rect 100 10 pE.1 pE.2 ∧ ¬ inside .rect 100 10 pN.1 pN.2 ∧
-    FvalUnrotated .rect 100 10 0 50 < 0 ∧ 0 ≤ FvalUnrotated .rect 100 10 50 0 := by
+EN 302 636-4-1 Annex D (as cited in router.py: "SE_POS_VALID = PV_SE EXISTS AND PAI_SE = TRUE", "Sender was
+inside/at border → discard to prevent area→non-area transition") speaks of the SENDER, the station the frame was
+received from.  The code looks the entry up under the packet's SOURCE address (`so_pv.gn_addr`): the link layer
+hands `gn_data_indicate` the GN bytes only, there is no sender address above it (known finding C07-KF1). -/
+
+/-- **full statement (variant `SeKey.sender`)**: with hop budget left and no size/PDR veto the transmissions of a
+receiver are those of the Annex D table on (ego inside or at border, SE_POS_VALID of the SENDER's entry, sender inside
+or at border); GBC delivers in addition when inside, GAC inside delivers and stops -/
+theorem annexD_selection_sender (g : Glue) (st : Station) (pk : GeoPkt) (sender : Nat)
+    (ho : oversize pk.area.shape pk.area.a pk.area.b st.maxKm2 = false) (hp : st.pdrExceeded pk.so = false)
+    (hr : 1 < pk.rhl) :
+    let egoIn := decide (0 ≤ fAt g pk.area st.ego)
+    let seValid := sePosValid (st.locT sender)
+    let seInsd := seInside g pk.area (st.locT sender)
+    recvGBCpkt g .sender st pk sender =
+      (if egoIn then [Action.deliver] else []) ++ fwdActs (annexDTable egoIn seValid seInsd) ∧
+    recvGACpkt g .sender st pk sender =
+      (if egoIn then [Action.deliver] else fwdActs (annexDTable false seValid seInsd)) := by
+  have e1 : sePai ((rxInOf g .sender st pk sender).se) = sePosValid (st.locT sender) := by
+    simp only [rxInOf]; cases st.locT sender <;> rfl
+  have e2 : seIn ((rxInOf g .sender st pk sender).se) = seInside g pk.area (st.locT sender) := by
+    simp only [rxInOf]; cases st.locT sender <;> rfl
+  have hf : (rxInOf g .sender st pk sender).fEgo = fAt g pk.area st.ego := rfl
+  refine ⟨?_, ?_⟩
+  · unfold recvGBCpkt
+    rw [recvGBC_eq _ ho hp hr, annexD_eq_table, e1, e2, hf]
+    by_cases h : 0 ≤ fAt g pk.area st.ego <;> simp [h]
+  · unfold recvGACpkt
+    rw [recvGAC_eq _ ho hp hr, annexD_eq_table, e1, e2, hf]
+    by_cases h : 0 ≤ fAt g pk.area st.ego <;> simp [h]
+
+/-- **the code as it is (variant `SeKey.source`), partial**: it takes the same decisions as the sender-keyed variant
+whenever the entries of source and sender agree on `SE_POS_VALID ∧ inside-or-at-border` … -/
+theorem annexD_selection_source_partial (g : Glue) (st : Station) (pk : GeoPkt) (sender : Nat)
+    (hagree : (sePosValid (st.locT pk.so) && seInside g pk.area (st.locT pk.so)) =
+              (sePosValid (st.locT sender) && seInside g pk.area (st.locT sender))) :
+    recvGBCpkt g .source st pk sender = recvGBCpkt g .sender st pk sender ∧
+    recvGACpkt g .source st pk sender = recvGACpkt g .sender st pk sender := by
+  have key : annexD (fAt g pk.area st.ego) (rxInOf g .source st pk sender).se =
+      annexD (fAt g pk.area st.ego) (rxInOf g .sender st pk sender).se := by
+    apply annexD_congr
+    have a1 : ∀ o : Option LocTE, sePai (o.map fun e => (e.pai, fAt g pk.area e.pos)) = sePosValid o := by
+      intro o; cases o <;> rfl
+    have a2 : ∀ o : Option LocTE, seIn (o.map fun e => (e.pai, fAt g pk.area e.pos)) = seInside g pk.area o := by
+      intro o; cases o <;> rfl
+    simp only [rxInOf, a1, a2]; exact hagree
+  have hfe : (rxInOf g .source st pk sender).fEgo = fAt g pk.area st.ego := rfl
+  have hfe' : (rxInOf g .sender st pk sender).fEgo = fAt g pk.area st.ego := rfl
+  unfold recvGBCpkt recvGACpkt
+  rw [recvGBC_form, recvGBC_form, recvGAC_form, recvGAC_form, hfe, hfe', key]
+  exact ⟨rfl, rfl⟩
+
+/-- … in particular on the first hop, where the sender is the source -/
+theorem annexD_first_hop (g : Glue) (st : Station) (pk : GeoPkt) :
+    recvGBCpkt g .source st pk pk.so = recvGBCpkt g .sender st pk pk.so ∧
+    recvGACpkt g .source st pk pk.so = recvGACpkt g .sender st pk pk.so :=
+  annexD_selection_source_partial g st pk pk.so rfl
+
+/-- **known finding C07-KF1, witness**: circle of radius 100 m around (0, 0); source 7 at 500 m north (outside), the
+relaying sender 8 at the centre (inside, valid position), receiver 150 m north (outside).  Annex D: discard.  The code
+(key = source) forwards the packet out of the area instead. -/
+theorem annexD_selection_source_witness :
+    let A : GeoArea := ⟨.circle, 100, 0, ⟨0, 0⟩, 0⟩
+    let pk : GeoPkt := ⟨A, 5, 7⟩
+    let st : Station := ⟨⟨150, 0⟩, 10, fun _ => false,
+      fun a => if a = 7 then some ⟨⟨500, 0⟩, true⟩ else if a = 8 then some ⟨⟨0, 0⟩, true⟩ else none⟩
+    recvGBCpkt flatGlue .sender st pk 8 = [] ∧ recvGBCpkt flatGlue .source st pk 8 = [.forwardNonArea] ∧
+    recvGACpkt flatGlue .sender st pk 8 = [] ∧ recvGACpkt flatGlue .source st pk 8 = [.forwardNonArea] := by
   decide +kernel
 
-/-- partial: for azimuth 0° and 180° (frame = ± the unrotated offsets) the unrotated evaluation was already right,
-    for every shape. -/
-theorem azimuth_ignored_partial (s : Shape) (a b north east : Rat) (q : Nat) (hq : q % 4 = 0 ∨ q % 4 = 2) :
-    FvalUnrotated s a b north east = Fval s a b (toFrameQuarter q north east).1 (toFrameQuarter q north east).2 := by
-  rcases hq with h | h <;> cases s <;>
-    simp [FvalUnrotated, toFrameQuarter, h, Fval, sqr, neg_div]
+/-! ## The code before fix C07-F1 (azimuth ignored) -/
+
+/-- **witness**: the old code evaluated F as if the azimuth were 0° whatever the area said.
+(i) rectangle a = 100 m, b = 10 m, azimuth 90° (unit vector (0, 1), long side pointing east): the point 50 m east of
+the centre is in the rotated shape, the point 50 m north is not; the old code decided both the wrong way round, the
+repaired arithmetic decides both correctly.  (ii) the same for the oblique 3-4-5 azimuth (≈ 53.13°). -/
+theorem azimuth_ignored_witness :
+    (insideRotated .rect 100 10 0 1 0 50 ∧ FvalUnrotated .rect 100 10 0 50 < 0 ∧ 0 ≤ FvalCode .rect 100 10 0 1 0 50) ∧
+    (¬ insideRotated .rect 100 10 0 1 50 0 ∧ 0 ≤ FvalUnrotated .rect 100 10 50 0 ∧ FvalCode .rect 100 10 0 1 50 0 < 0) ∧
+    (insideRotated .rect 100 10 (3/5) (4/5) 30 40 ∧ FvalUnrotated .rect 100 10 30 40 < 0) := by
+  have q : (0 : Rat) * 0 + 1 * 1 = 1 := by norm_num
+  have t : (3 / 5 : Rat) * (3 / 5) + (4 / 5) * (4 / 5) = 1 := by norm_num
+  refine ⟨⟨?_, by decide +kernel, by decide +kernel⟩, ⟨?_, by decide +kernel, by decide +kernel⟩, ?_, by decide +kernel⟩
+  · exact (rotated_inside_iff_F .rect 100 10 0 1 0 50 q (by norm_num) (by norm_num)).1 (by decide +kernel)
+  · exact (rotated_outside_iff_F .rect 100 10 0 1 50 0 q (by norm_num) (by norm_num)).1 (by decide +kernel)
+  · exact (rotated_inside_iff_F .rect 100 10 (3/5) (4/5) 30 40 t (by norm_num) (by norm_num)).1 (by decide +kernel)
+
+/-- **partial**: the unrotated evaluation was right exactly where the rotation does not matter — for every unit
+vector with `s = 0` (azimuth 0° and 180°) and every shape, and for the circle at every azimuth -/
+theorem azimuth_ignored_partial (sh : Shape) (a b c s north east : Rat) (hu : c * c + s * s = 1)
+    (h : s = 0 ∨ sh = .circle) :
+    FvalUnrotated sh a b north east = FvalCode sh a b c s north east := by
+  unfold FvalUnrotated
+  rcases h with h | h
+  · subst h
+    have hc : c = 1 ∨ c = -1 := by
+      have : (c - 1) * (c + 1) = 0 := by ring_nf; ring_nf at hu; linarith
+      rcases mul_eq_zero.1 this with h1 | h1
+      · left; linarith
+      · right; linarith
+    rcases hc with hc | hc
+    · rw [hc]
+    · rw [hc]; have := azimuth_half_turn sh a b 1 0 north east; simpa using this.symm
+  · subst h
+    rw [FvalCode_eq_FvalLocal, FvalCode_eq_FvalLocal, FvalLocal_circle a b 1 0 north east (by norm_num),
+      FvalLocal_circle a b c s north east hu]
+
+/-! ## Model facts (restate definitions; not part of the claimed list) -/
+namespace Model
+
+/-- the eight rows, spelled out -/
+theorem annexD_rows :
+    annexDTable true true true = .areaForwarding ∧ annexDTable true true false = .areaForwarding ∧
+    annexDTable true false true = .areaForwarding ∧ annexDTable true false false = .areaForwarding ∧
+    annexDTable false true true = .discard ∧ annexDTable false true false = .nonAreaForwarding ∧
+    annexDTable false false true = .nonAreaForwarding ∧ annexDTable false false false = .nonAreaForwarding := by
+  decide
+
+end Model
 
 end Props.C07
